@@ -50,6 +50,26 @@ def module_ast(module):
     return _SRC_CACHE[p]
 
 
+def module_constants(module):
+    """{NAME: value} for module-level `NAME = <int | str | bool literal>` assigned exactly once in the module and never rebound
+    through `global` (thresholds and the like that a function refers to by name)"""
+    src, tree = module_ast(module)
+    count, vals = {}, {}
+    for n in ast.walk(tree):
+        if isinstance(n, ast.Global):
+            for g in n.names:
+                count[g] = count.get(g, 0) + 2
+    for n in tree.body:
+        tgts = n.targets if isinstance(n, ast.Assign) else ([n.target] if isinstance(n, (ast.AugAssign, ast.AnnAssign)) else [])
+        for t in tgts:
+            if isinstance(t, ast.Name):
+                count[t.id] = count.get(t.id, 0) + 1
+                v = getattr(n, 'value', None)
+                if isinstance(n, ast.Assign) and isinstance(v, ast.Constant) and isinstance(v.value, (int, str, bool)):
+                    vals[t.id] = v.value
+    return {k: v for k, v in vals.items() if count.get(k) == 1}
+
+
 def find_function(module, qualname):
     src, tree = module_ast(module)
     parts = qualname.split('.')
@@ -92,6 +112,7 @@ def verify_unit(args):
             meta['lines'] = [node.lineno, node.end_lineno]
             ext = getattr(cset, 'extern', {}).get(c.module, {})
             v = FunctionVerifier(cset, c, node, tr, extern=ext)
+            v.module_consts = module_constants(c.module)
             obs = v.obligations()
             lemmas = list(cset.lemmas)
             serves = c.serves
